@@ -674,6 +674,21 @@ func Run(r *fw.Run) {
 		}
 		msgs = append(msgs, b.String(), strings.TrimSuffix(b.String(), "\n"))
 	})
+	// long lines: a signature line, a key name and a text line longer than the usual buffer sizes
+	// (4 KiB, 64 KiB, 1 MiB), before and after good and bad signatures of known keys
+	for _, n := range []int{4000, 4096, 49000, 49143, 49200, 65536, 70000, 1 << 20} {
+		longSig := "— x " + base64.StdEncoding.EncodeToString(append([]byte{0, 0, 0, 9}, make([]byte, n)...))
+		longName := "— " + strings.Repeat("n", n) + " AAAAAAA="
+		longText := strings.Repeat("t", n)
+		msgs = append(msgs,
+			"a\n\n"+longSig+"\n"+good1+"\n", "a\n\n"+good1+"\n"+longSig+"\n", "a\n\n"+longSig+"\n"+badSame+"\n", "a\n\n"+longSig+"\n"+good2+"\n"+badSame+"\n",
+			"a\n\n"+longName+"\n"+good1+"\n", "a\n\n"+longName+"\n"+badSame+"\n", "a\n\n"+longSig+"\n",
+			longText+"\n\n"+good1+"\n", "a\n"+longText+"\n\n"+good1+"\n")
+		// and through Sign: a long text signed and opened
+		if m, err := note.Sign(&note.Note{Text: longText + "\n"}, theKeys()["k1"].signer, theKeys()["k2"].signer); err == nil {
+			msgs = append(msgs, string(m))
+		}
+	}
 	// 99 / 100 / 101 signature lines (distinct unknown signatures, then a good one)
 	for _, n := range []int{98, 99, 100, 101} {
 		var b strings.Builder
